@@ -16,7 +16,7 @@ LEVEL_TEXT = ("Every circuit the workload obtains from dsharp is validated again
               "all CNF variables plus structural d-DNNF checks: per-instance translation validation.")
 LEVEL_NOTE = "Trusts pbmon/ref/boolfn.py and pbmon/tv.py; instances above the variable bound are skipped."
 TECHNIQUE = "runtime translation validation of captured CNF->d-DNNF instances (exhaustive model enumeration + structural checks)"
-BUDGET = {"quick": 1500, "thorough": 30000}
+BUDGET = {"quick": 1500, "thorough": 20000}
 TIME_BUDGET = {"quick": 200, "thorough": 3000}
 CASE_TIMEOUT = 20
 WATCHDOG_FRACTION = 0.04
